@@ -26,6 +26,8 @@ func main() {
 			tier = os.Args[3]
 		}
 		os.Exit(checks.Run(os.Args[2], tier))
+	case "replay":
+		os.Exit(checks.Replay(os.Args[2]))
 	case "busdrive":
 		if err := busdrv.RunBatchChild(os.Args[2], os.Args[3]); err != nil {
 			fmt.Fprintln(os.Stderr, err)
